@@ -114,7 +114,7 @@ namespace sim
     w.name = name;
     w.content = content;
     rapidjson::Document d;
-    d.Parse<rapidjson::kParseCommentsFlag | rapidjson::kParseNanAndInfFlag>(content.c_str(), content.size());
+    d.Parse<rapidjson::kParseCommentsFlag | rapidjson::kParseNanAndInfFlag | rapidjson::kParseIterativeFlag>(content.c_str(), content.size());
     if (d.HasParseError() || !d.IsObject())
       return w;
     w.parse_ok = true;
